@@ -29,7 +29,7 @@ func main() {
 	if len(os.Args) > 1 {
 		tier = os.Args[1]
 	}
-	rounds, iters := 4, 60
+	rounds, iters := 4, 30
 	if tier == "thorough" {
 		rounds, iters = 8, 250
 	}
